@@ -65,7 +65,7 @@ FAC_CALLS = ["K(1)", "K(1, b=3)", "K(a=4)", "K(*[5])"]
 
 def fac_cases():
     out = []
-    for nested in (False, True):
+    for nested in (False, True, "if-block", "try-block"):
         for host in ("same", "import", "from", "both"):
             for k in (1, 2):
                 for calls in itertools.product(range(len(FAC_CALLS)), repeat=k):
@@ -75,7 +75,14 @@ def fac_cases():
 
 
 def fac_project(case):
-    if case["nested"]:
+    if case["nested"] == "if-block":
+        # the class stands at module level inside a compound statement, with more code following in the block
+        cls = "import sys\n\nif sys.version_info > (3,):\n    class K:\n        def __init__(self, a, b=2):\n            self.a = a\n            self.b = b\n\n    STYLE = 'new'\nelse:\n    STYLE = 'old'\n\n\n"
+        ref = "K"
+    elif case["nested"] == "try-block":
+        cls = "try:\n    class K:\n        def __init__(self, a, b=2):\n            self.a = a\n            self.b = b\n\n    STYLE = 'tagged'\nexcept ImportError:\n    STYLE = 'plain'\n\n\n"
+        ref = "K"
+    elif case["nested"]:
         cls = "class Outer:\n    class K:\n        def __init__(self, a, b=2):\n            self.a = a\n            self.b = b\n\n\n"
         ref = "Outer.K"
     else:
@@ -152,6 +159,9 @@ UF_FUNCS = {
     "expr": "def sq(x):\n    return x * x + 1\n",
     "stmts": "def sq(x):\n    y = x * x\n    return y + 1\n",
     "noret": "def sq(x):\n    print(x * x + 1)\n",
+    "oneline-noret": "def sq(x): print(x * x + 1)\n",
+    "oneline-ret": "def sq(x): return x * x + 1\n",
+    "no-final-newline": "CONST = 1\n\n\ndef sq(x):\n    return x * x + 1",
 }
 UF_USES = {
     "expr": ["print(3 * 3 + 1)", "a = 4\nprint(a * a + 1)", "b = 2\nc = b * b + 1\nprint(c)", "print(2 * 3 + 1)", "print((1 + 1) * (1 + 1) + 1)",
@@ -159,6 +169,9 @@ UF_USES = {
              "print(3 * 3 + 1.0)", "print(3 * 3 + True)", "print(3 * 3 + 2)", "print(3 * 3 - 1)", "print(3 * 3 + (1+0j))"],
     "stmts": ["a = 4\ny = a * a\nprint(y + 1)", "k = 2\nz = k * k\nprint(z + 1)", "print(3 * 3 + 1)"],
     "noret": ["print(3 * 3 + 1)", "a = 5\nprint(a * a + 1)"],
+    "oneline-noret": ["print(3 * 3 + 1)", "a = 5\nprint(a * a + 1)"],
+    "oneline-ret": ["print(3 * 3 + 1)", "a = 4\nprint(a * a + 1)"],
+    "no-final-newline": ["print(3 * 3 + 1)", "a = 4\nprint(a * a + 1)"],
 }
 
 
@@ -176,7 +189,9 @@ def uf_project(case):
     f = UF_FUNCS[case["func"]]
     body = "\n".join(UF_USES[case["func"]][u] for u in case["uses"]) + "\n"
     if case["host"] == "same":
-        return {"xd.py": f + "\n\n" + body + "print(sq(2))\n" if case["func"] != "noret" else f + "\n\n" + body + "sq(2)\n"}
+        if case["func"] == "no-final-newline":
+            return {"xd.py": body + "\n\n" + f}      # the function ends the file, which has no final newline
+        return {"xd.py": f + "\n\n" + body + "print(sq(2))\n" if "noret" not in case["func"] else f + "\n\n" + body + "sq(2)\n"}
     imp = "import xd\n\n" if case["host"] == "import" else "from xd import sq\n\n"
     return {"xd.py": f, "xu.py": imp + body}
 
